@@ -96,8 +96,26 @@ pub struct RunOut {
     /// A duplicate item in the snapshot, if any.
     pub duplicate: Option<String>,
     pub snapshot: PayloadSnapshot,
+    /// The snapshot through its per-type iterators.
     pub data: DataSet,
+    /// What the serving side hands out: the shared snapshot's combined
+    /// iterator that the RTR cache reset and the JSON snapshot stream use.
+    /// `Err`: that iterator yields an item twice.
+    pub served: Result<DataSet, String>,
     pub metrics: Metrics,
+}
+
+impl RunOut {
+    /// The served data if it equals the snapshot's content.
+    pub fn served_matches(&self) -> Result<(), String> {
+        match &self.served {
+            Err(e) => Err(format!("the serving iterator yields a duplicate: {e}")),
+            Ok(s) if *s != self.data => Err(format!(
+                "the serving iterator yields {} while the snapshot holds {}", s.describe(), self.data.describe()
+            )),
+            Ok(_) => Ok(())
+        }
+    }
 }
 
 /// One validation run with the collector on (unless `offline`).
@@ -112,7 +130,14 @@ pub fn run(
     let snapshot = report.into_snapshot(exceptions, &mut metrics);
     let data = DataSet::from_snapshot(&snapshot);
     let duplicate = DataSet::from_payload(snapshot.payload()).err();
-    Ok(RunOut { duplicate, snapshot, data, metrics })
+    let served = {
+        use rpki::rtr::server::PayloadSet;
+        let mut iter = std::sync::Arc::new(snapshot.clone()).arc_iter();
+        let mut items = Vec::new();
+        while let Some(p) = iter.next() { items.push(crate::data::to_owned(p)); }
+        DataSet::from_payload(items.iter().map(|p| p.as_ref()))
+    };
+    Ok(RunOut { duplicate, snapshot, data, served, metrics })
 }
 
 fn copy_tree(src: &Path, dst: &Path) -> std::io::Result<()> {
